@@ -330,7 +330,7 @@ def _literals(text: str) -> set:
 def _base_branch(ctx):
     """R9 by interpretation: TypeHint._is_subhint_branch over abstract wrappers."""
     import itertools
-    from sa.fold import AObj, FuncVal, _Abort, _Raise, _call_function
+    from sa.fold import AObj, DelegatingAObj, FuncVal, _Abort, _Raise, _call_function
     from rules import _gen
     repo = ctx.repo
     F = _gen.engines(ctx)[0].f
@@ -353,7 +353,9 @@ def _base_branch(ctx):
         def is_subhint(self, other):
             return self.ok
 
-    class _W(AObj):
+    class _W(DelegatingAObj):
+        _real_class = cls
+
         def __init__(self, kind, origin, kids, ignorable=False):
             self.kind, self._origin, self._args_wrapped_tuple, self._is_args_ignorable = kind, origin, tuple(kids), ignorable
             self._hint = f'<{kind}>'
@@ -412,7 +414,7 @@ def _base_branch(ctx):
 def _union_subhint(ctx):
     """R10 by interpretation: the union wrapper's subhint test over abstract unions whose members may themselves be
     union-like (a bounded or constrained type variable is a union of its bound / constraints)."""
-    from sa.fold import AObj, ClassVal, FuncVal, _Abort, _Raise, _call_function
+    from sa.fold import AObj, ClassVal, DelegatingAObj, FuncVal, _Abort, _Raise, _call_function
     from rules import _gen
     repo = ctx.repo
     F = _gen.engines(ctx)[0].f
@@ -450,7 +452,9 @@ def _union_subhint(ctx):
         def __repr__(self):
             return self.name
 
-    class _U(AObj):
+    class _U(DelegatingAObj):
+        _real_class = cls
+
         def __init__(self, *branches):
             self._branches = self._args_wrapped_tuple = tuple(branches)
             self._hint = f'<union of {len(branches)}>'
